@@ -292,7 +292,7 @@ func (rn *Runner) Commit(i int) string {
 	} else {
 		rn.Head = roots[i]
 	}
-	ev := tl.M{"op": "Commit", "i": i, "res": res}
+	ev := tl.M{"op": "Commit", "i": i, "res": res, "kf": ""}
 	if err != nil {
 		ev["err"] = err.Error()
 	}
